@@ -18,7 +18,8 @@ RULE = ("cluster cases: 1-3 node in-memory clusters, 2-3 index groups (index + 1
         "included), explicit-commit and auto-commit, 1-4 frames of unequal length per group (so channels on different "
         "nodes end at different times), frames that skip a leaseholder, a share of malformed requests (unknown key at "
         "open, key outside the writer in a frame); afterwards, on EVERY node: SeekFirst+Next(span)*, SeekLast+Prev(span)*, "
-        "SeekGE/SeekLE+steps traversals (also with narrowed bounds) through the cluster iterator, each node's own storage "
+        "SeekGE/SeekLE+steps, SetBounds after open followed by a new seek and steps, Next/Prev(AutoSpan) with a chunk "
+        "size, Valid — traversals (also with narrowed bounds) through the cluster iterator, each node's own storage "
         "iterator on its own channels, a full read of every channel from every node's engine, and the same writes and "
         "traversals on ONE stand-alone cesium store; iterator opens on free / unknown keys. Component cases: random "
         "response sequences (1-3 leaseholders, in-order cycles plus zero / foreign sequence numbers) through the two "
